@@ -987,7 +987,25 @@ pub const STATIC_ERRORS: &[(&str, &str)] = &[
 
 fn static_variants(r: &mut Rng) -> (&'static str, String) {
     let col = parse::column(r);
-    match r.below(14) {
+    match r.below(16) {
+        14 | 15 => {
+            // two columns of one aggregation with one name (rejected since /repo 7200e5c): two
+            // aggregates, or an aggregate and one of the stage's own `by` keys — by `as` or by default name
+            let f = *r.pick(&["count", "sum(n)", "max(n)", "min(x)", "avg(n)", "count_distinct(s)", "p50(n)"]);
+            let dflt = |f: &str| match f { "count" => "_count", "sum(n)" => "_sum", "max(n)" => "_max", "min(x)" => "_min", "avg(n)" => "_average", "count_distinct(s)" => "_countDistinct", _ => "p50" }.to_string();
+            // plain identifiers only: the header of a `by` key is its source text, so `["a b"]` as a key
+            // and `as ["a b"]` name different columns (the known C20 finding), which is no clash
+            let col = r.pick(&["k", "n", "x", "s", "status", "_count"]).to_string();
+            let q = match r.below(6) {
+                0 => format!("* | json | {} as {} by {}", f, col, col),
+                1 => format!("* | json | {} as {}, count by {}, k", f, col, col),
+                2 => format!("* | json | count by k | {} by {}", f, dflt(f)),
+                3 => format!("* | json | {}, count by k | {} by {}, k", f, f, dflt(f)),
+                4 => format!("* | json | {} as a, count as a by k", f),
+                _ => format!("* | json | {}, {} by k", f, f),
+            };
+            ("duplicate column", q)
+        }
         0 => ("zero limit", format!("* | json | limit {}", r.pick(&["0", "0.0", "-0", "00", "0e5", "+0"]))),
         1 => ("fractional limit", format!("* | json | limit {}{}.{}", r.pick(&["", "-"]), r.range(0, 99), r.range(1, 9))),
         2 => {
